@@ -140,5 +140,12 @@ CHECKS['C18'] = (E1 + '; ' + E2, 'E1-input-config-explorer + E2-history-explorer
     'Trusted: math.exp transcription (1e-12). psi-relaxation and the returned scalar of the affinity routines are not described by C18.',
     'DESIGN.md section 4 C18')
 
+CHECKS['C20'] = (E1 + '; ' + E2, 'E1-input-config-explorer + E2-history-explorer',
+    'A catalogue of 25 pair-level and 14 collection-level routines (both engines) is called on every combination of container representations of its series arguments (list, tuple, array.array, ndarray contiguous/strided/reversed/row/Fortran/transposed/read-only; '
+    'list and tuple of arrays, strided rows, SeriesContainer, 2-D/3-D arrays in C, strided and Fortran order). Every array lives inside a larger poisoned buffer and each call is made with two poison values: inputs and guard zones must be byte-identical afterwards, '
+    'the result must not depend on the poison, must repeat, and must equal the result on the canonical container. Histories: every sequence up to depth 3 of 13 routines sharing the same series objects must reproduce the isolated results. The NumPy-free routines are re-run in a NumPy-less interpreter.',
+    'Trusted: byte images of the buffers. Lists into *_fast entry points and read-only arrays into the C engine are outside C20\'s container list (documented requirement) and not generated.',
+    'DESIGN.md section 4 C20')
+
 ALL = ['C%02d' % i for i in range(1, 21)]
 NOT_APPLICABLE = {p: PENDING for p in ALL if p not in CHECKS}
